@@ -21,6 +21,16 @@ def cfgStr (c : Case) (k : String) (d : String) : String :=
   | some [_, v] => v
   | _ => d
 
+/-- timestamp token → usable timestamp (window/factory.go extractTimestamp): plain digits int64,
+`f…` float64, `s…` decimal string, `t…` time.Time; `none` (absent), `nil`, `garbage` (non-numeric
+string) are unplaceable; without a declared TIMEUNIT (`unit = 0`) only time.Time values are usable -/
+def tsOfTok (unit : Int) (tok : String) : Option Int :=
+  if tok == "none" || tok == "nil" || tok == "garbage" then none
+  else if tok.startsWith "t" then parseInt (tok.drop 1).toString
+  else if unit == 0 then none
+  else if tok.startsWith "f" || tok.startsWith "s" then parseInt (tok.drop 1).toString
+  else parseInt tok
+
 def emLine (e : Emission) : List String :=
   (if e.kind == .late then "lemit" else "emit") :: toString e.start :: toString e.stop :: e.rows.map (fun r => toString r.id)
 
@@ -45,7 +55,7 @@ def parseGap (g : String) : Option Gap :=
   match g.splitOn ":" with
   | k :: id :: ts :: _ => do
     let k ← parseNat k; let id ← parseNat id
-    some { k := k, id := id, ts := if ts == "none" then none else parseInt ts }
+    some { k := k, id := id, ts := tsOfTok 1 ts }
   | _ => none
 
 variable {σ : Type}
@@ -117,7 +127,7 @@ def runWith [Inhabited σ] (m : Machine σ) (s0 : σ) (scfg : WinSpec.Cfg) (c : 
     match op with
     | "add" :: id :: ts :: _ =>
       let id := (parseNat id).getD 0
-      let ts := if ts == "none" then none else parseInt ts
+      let ts := tsOfTok (cfgInt c "tsunit" 1) ts
       if mode == "pt" then
         match ts with
         | some t => s := m.ptAdd s { id := id, ts := t }
@@ -230,6 +240,8 @@ def runSql (c : Case) : CaseOut := Id.run do
   let mut evs : List WinSpec.Ev := []
   let mut emits : List WinSpec.Ev := []
   let mut bad : Option String := none
+  let mut delivered : List (Nat × Int × Int × List Nat) := []
+  let late := cfgInt c "late" 0
   let grpOf (ks : List String) (k : String) : Nat := (ks.idxOf k)
   for (op, implObs) in c.ops do
     match op with
@@ -246,7 +258,25 @@ def runSql (c : Case) : CaseOut := Id.run do
           if (parseNat cnt).getD 0 != idl.length && bad.isNone then bad := some "count-differs-from-rows-of-the-window"
           if (parseNat sum).getD 0 != idl.foldl (· + ·) 0 && bad.isNone then bad := some "sum-differs-from-rows-of-the-window"
           if wid != "t" && bad.isNone then bad := some "window_id-not-start_end"
-          emits := emits ++ [WinSpec.Ev.emit false ((parseInt ws).getD 0) ((parseInt we).getD 0) idl (grpOf keys k)]
+          let a := (parseInt ws).getD 0
+          let b := (parseInt we).getD 0
+          let g := grpOf keys k
+          -- a result for an interval already delivered for this group is a re-delivery (ALLOWEDLATENESS > 0):
+          -- same bounds (hence same window_id), previous rows first, then further rows of the group in the interval
+          match delivered.find? (fun d => d.1 == g && d.2.1 == a && d.2.2.1 == b) with
+          | some d =>
+            let prev := d.2.2.2
+            if late ≤ 0 && bad.isNone then bad := some "interval-delivered-twice-without-allowance"
+            if idl.take prev.length != prev && bad.isNone then bad := some "re-delivery-does-not-start-with-previous-rows"
+            let extra := idl.drop prev.length
+            let okExtra := extra.all fun i => evs.any fun e => match e with
+              | .arr i' (some t) g' => i' == i && g' == g && decide (a ≤ t) && decide (t < b)
+              | _ => false
+            if (!okExtra || idl.eraseDups.length != idl.length) && bad.isNone then bad := some "re-delivery-row-not-of-this-group-and-interval"
+            delivered := delivered.map (fun x => if x.1 == g && x.2.1 == a && x.2.2.1 == b then (g, a, b, idl) else x)
+          | none =>
+            delivered := delivered ++ [(g, a, b, idl)]
+            emits := emits ++ [WinSpec.Ev.emit false a b idl g]
         | ["sentinel-lost"] => if bad.isNone then bad := some "sentinel-window-never-delivered"
         | _ => if bad.isNone then bad := some "unreadable-result-line"
     | _ => pure ()
